@@ -5,6 +5,7 @@
   Also: the writer halves of C09 (error latch) and C12 (init / reset give a fresh writer).
 -/
 import Binson.Lemmas.WriterLemmas
+import Binson.Lemmas.OracleSpec
 namespace Binson
 
 /-! ### C04 -/
@@ -68,5 +69,12 @@ example :
     m0.size = totalLen (allPieces ops) ∧
     ((Writer.init m0 m0.size).1.run ops).mem.toList = [0x40, 0x14, 0x01, 0x61, 0x10, 0x01, 0x41] := by
   exact ⟨by decide, by decide⟩
+
+
+/-- the destination image the driver's C04 oracle demands of the implementation (`fitted` over `specPieces`,
+    Spec/WriterSpec.lean, written from the encoding rules) is exactly the image `writer_run` proves for the model -/
+theorem c04_oracle_is_spec (cap : Nat) (ops : List WOp) :
+    fitted cap 0 (ops.flatMap specPieces) = fittedPieces cap 0 (allPieces ops) :=
+  oracle_image_eq cap ops
 
 end Binson
